@@ -249,7 +249,8 @@ fn make_client(sc: &Scenario, ports: [u16; 3], cache_dir: Option<&std::path::Pat
     let cfg = ClientConfig {
         tact_https_url: if sc.https.is_some() { format!("http://127.0.0.1:{}", ports[0]) } else { String::new() },
         tact_http_url: if sc.http.is_some() { format!("http://127.0.0.1:{}", ports[1]) } else { String::new() },
-        ribbit_url: format!("tcp://127.0.0.1:{}", ports[2]),
+        // the documented forms of the Ribbit address: with the tcp:// scheme, and bare host:port
+        ribbit_url: if sc.script.ends_with('B') { format!("127.0.0.1:{}", ports[2]) } else { format!("tcp://127.0.0.1:{}", ports[2]) },
         cache_config,
         ..ClientConfig::default()
     };
@@ -465,7 +466,30 @@ async fn run_scenario(sc: Scenario) -> (Scenario, Result<String, (String, String
         let cls = format!("{:?}/{:?}/{:?}", sc.https.map(hclass), sc.http.map(hclass), tclass(sc.tcp));
         return fail(kind, &cls, format!("{name}: first query contacted [https,http,tcp] = {:?} and returned {:?}; the reference allows {:?}", first.contacts, first.result, allow));
     }
-    if sc.script == "q" {
+    if sc.script == "q" || sc.script == "qB" {
+        return (sc, Ok(out_summary));
+    }
+    if sc.script == "qcqq" {
+        // query, clear the cache, query (has to ask the network again), query (has to be served
+        // from the cache again)
+        let Ok(tag) = first.result.clone() else { return (sc, Ok(out_summary)) };
+        if let Err(e) = client.cache().clear() {
+            return fail("cache-clear-failed", sc.script, format!("{name}: cache().clear() failed: {e}"));
+        }
+        let second = one_query(&client, &sc, &mocks).await;
+        let third = one_query(&client, &sc, &mocks).await;
+        out_summary.push_str(&format!(" | clear | q2: contacts={:?} result={:?} | q3: contacts={:?} result={:?}", second.contacts, second.result, third.contacts, third.result));
+        if second.contacts.iter().sum::<usize>() == 0 {
+            return fail("answer-from-nowhere", sc.script, format!("{name}: the cache was cleared, yet the next query produced no network traffic: {:?}", second.result));
+        }
+        if second.result.as_ref().ok() == Some(&tag) && !sc.ttl_zero {
+            if third.contacts.iter().sum::<usize>() != 0 {
+                return fail("cached-answer-not-used", sc.script, format!("{name}: after clear() and a good answer (TTL 1 h) the following query produced network traffic {:?}", third.contacts));
+            }
+            if third.result.as_ref().ok() != Some(&tag) {
+                return fail("cached-answer-differs", sc.script, format!("{name}: the cached answer {:?} differs from the answer {tag}", third.result));
+            }
+        }
         return (sc, Ok(out_summary));
     }
     // second query
@@ -571,6 +595,19 @@ fn scenarios(tier: Tier) -> Vec<Scenario> {
             }
         }
     }
+    // (9) the bare host:port form of the Ribbit address, where the chain reaches Ribbit; and the
+    // script query / clear the cache / query / query
+    for (a, b, ep) in [(Some(HB::S503), Some(HB::S503), "v1/products/wow/versions"), (Some(HB::Valid), Some(HB::Valid), "v1/summary"), (None, None, "v1/products/wow/cdns")] {
+        for t in [TB::ValidV1, TB::ValidV2] {
+            out.push(Scenario { https: a, http: b, tcp: t, cut: None, cut2: None, ttl_split: false, endpoint: ep, script: "qB", ttl_zero: false, disk_cache: false });
+        }
+    }
+    for ep in ["v1/products/wow/versions", "v1/products/wow/cdns", "v1/summary"] {
+        for disk in [false, true] {
+            out.push(Scenario { https: Some(HB::Valid), http: Some(HB::Valid), tcp: TB::ValidV1, cut: None, cut2: None, ttl_split: false, endpoint: ep, script: "qcqq", ttl_zero: false, disk_cache: disk });
+            out.push(Scenario { https: Some(HB::S503), http: Some(HB::Valid), tcp: TB::ValidV1, cut: None, cut2: None, ttl_split: true, endpoint: ep, script: "qcqq", ttl_zero: false, disk_cache: disk });
+        }
+    }
     // (3) endpoint configuration: each TACT URL present or empty
     for (h1, h2) in [(None, Some(HB::Valid)), (Some(HB::S503), None), (None, None), (None, Some(HB::S404))] {
         for t in tb_small {
@@ -646,7 +683,7 @@ fn scenarios(tier: Tier) -> Vec<Scenario> {
 
 pub fn run(tier: Tier, seed: u64) -> i32 {
     let rep = Report::new("C13", tier, seed, Level::ModelChecking);
-    rep.set_rule("scenario = assignment of a behaviour to each of the three loopback endpoints × endpoint class × query script × TTL class × cache kind; (1) the full product of behaviours for versions/qq/1h/disk, (2) a reduced behaviour set across all other dimensions, (3) endpoint URLs present/empty, (4) every single cut position of every valid TCP response (V1 CRLF, V1 LF, V2, and V2 with an empty line after each of its lines), (5) every pair (first cut anywhere, second cut at every later line end; thorough: later positions on a grid of 3), (6) query scripts around the expiry of a 2 s TTL in real time (same client, new client adopting the stored answer at once / mid-TTL / after expiry; own TTL class short with the others 1 h, or all short), judged only where the measured times leave no doubt, (7) the connection closed by the peer after every proper prefix of the V1 response (checksum line last): an error, or the complete document once only the checksum line is cut, and nothing cached after an error, (8) a TACT endpoint answering 200 with the full Content-Length and the body cut by the peer after every proper prefix; states = scenarios, transitions = queries issued, traces = scenarios executed on the real RibbitTactClient");
+    rep.set_rule("scenario = assignment of a behaviour to each of the three loopback endpoints × endpoint class × query script × TTL class × cache kind; (1) the full product of behaviours for versions/qq/1h/disk, (2) a reduced behaviour set across all other dimensions, (3) endpoint URLs present/empty, (4) every single cut position of every valid TCP response (V1 CRLF, V1 LF, V2, and V2 with an empty line after each of its lines), (5) every pair (first cut anywhere, second cut at every later line end; thorough: later positions on a grid of 3), (6) query scripts around the expiry of a 2 s TTL in real time (same client, new client adopting the stored answer at once / mid-TTL / after expiry; own TTL class short with the others 1 h, or all short), judged only where the measured times leave no doubt, (7) the connection closed by the peer after every proper prefix of the V1 response (checksum line last): an error, or the complete document once only the checksum line is cut, and nothing cached after an error, (8) a TACT endpoint answering 200 with the full Content-Length and the body cut by the peer after every proper prefix, (9) the bare host:port form of the Ribbit address and the script query / clear the cache / query / query; states = scenarios, transitions = queries issued, traces = scenarios executed on the real RibbitTactClient");
     rep.assume("loopback TCP, plain HTTP for the 'HTTPS' endpoint (as the repository's own tests do); real time; a refused connection is produced by a bound, non-listening socket");
     rep.assume("classification: 5xx/429/refused/stall = transient, 4xx other than 429 = definitive; 200+malformed body, accept-and-close, close-mid-body are 'failed' but not judged on stop-vs-continue (DESIGN §6)");
     rep.assume("a V2 (plain BPSV) response closed at a row boundary is indistinguishable from a complete shorter response for any client (no length, no checksum): close-at-every-position is enumerated for the V1 response only, whose checksum line the statement of C07 names");
@@ -740,7 +777,7 @@ pub fn replay(w: &serde_json::Value) -> i32 {
         tcp: parse_tb(wit["tcp"].as_str().unwrap_or("")),
         cut: wit["cut"].as_u64().map(|c| c as usize),
         endpoint,
-        script: ["qq", "qnq", "q", "x:qqWq", "x:qnqWq", "x:qwnqWq", "x:qWnq", "x:qwqWq"].into_iter().find(|x| Some(*x) == wit["script"].as_str()).unwrap_or("qq"),
+        script: ["qq", "qnq", "q", "qB", "qcqq", "x:qqWq", "x:qnqWq", "x:qwnqWq", "x:qWnq", "x:qwqWq"].into_iter().find(|x| Some(*x) == wit["script"].as_str()).unwrap_or("qq"),
         cut2: wit["cut2"].as_u64().map(|c| c as usize),
         ttl_split: wit["ttl_split"].as_bool().unwrap_or(false),
         ttl_zero: wit["ttl_zero"].as_bool().unwrap_or(false),
